@@ -1,0 +1,5 @@
+//go:build !verif
+
+package saml2
+
+func verifPoint(string) {}
